@@ -514,7 +514,13 @@ class VExec(Exec):
 
     def havoc_location(self, loc, fr=None, env=None):
         I = self.interp
+        kind = None
+        if isinstance(loc, tuple):
+            loc, kind = loc
         d = self.resolve_location(loc, fr, env)
+        if kind is not None and d[0] == 'attr':
+            self.heap[d[1]].attrs[d[2]] = I.sym(d[2], kind)
+            return
         if d[0] == 'ghost':
             g = self.ghost[d[1]]
             if isinstance(g, V):
@@ -574,6 +580,8 @@ class VExec(Exec):
         """everything not listed in modifies is unchanged w.r.t. snap (syntactic fast path, else obligation)"""
         allowed = set()
         for loc in modifies:
+            if isinstance(loc, tuple):
+                loc = loc[0]
             d = self.resolve_location(loc, fr, env)
             allowed.add(d if d[0] != 'absobj' else ('abs', d[1].cls, d[2]))
         I = self.interp
